@@ -819,3 +819,26 @@ package k8s
 //@     invariant covered: forall q v1.Protocol, n int :: {iset(res.AllowedConns.AllowedProtocols[q].Ports)[n]} {iset(res.DeniedConns.AllowedProtocols[q].Ports)[n]} {iset(res.PassConns.AllowedProtocols[q].Ports)[n]}
 //@         (!pts(res.AllowedConns, q, n) && !pts(res.DeniedConns, q, n) && !pts(res.PassConns, q, n)) ==>
 //@         (forall j int :: {anp.Spec.Egress[j]} (0 <= j && j <= rangeindex) ==> !anpEgCap(anp, j, dst, q, n))
+
+// ---------------------------------------------------------------------------------------------
+// Rule selector vs representative selector (C06): a full match is reported only for the same selector object, an empty rule
+// selector, or two requirement lists of the same length that agree entry by entry (in the normalised printed form)
+// ---------------------------------------------------------------------------------------------
+
+//@ import labels "k8s.io/apimachinery/pkg/labels"
+//@ ufun normReq(r labels.Requirement) string
+//@ func replaceStringOfRequirementWithInOpAndSingleValue
+//@   trusted
+//@   modifies *
+//@   ensures [C06] norm: res1 == nil ==> ((if res0 != "" then res0 else reqStr(req)) == normReq(req))
+
+//@ func SelectorsFullMatch
+//@   requires ruleSelector != nil && repSelector != nil
+//@   modifies *
+//@   ensures [C06,C07] full: (res1 == nil && res0) ==> (ruleSelector == repSelector
+//@         || (len(valof(ruleSelector).MatchLabels) == 0 && len(valof(ruleSelector).MatchExpressions) == 0)
+//@         || (len(reqsOf(valof(ruleSelector))) == len(reqsOf(valof(repSelector)))
+//@             && (forall i int :: {reqsOf(valof(ruleSelector))[i]} (0 <= i && i < len(reqsOf(valof(ruleSelector)))) ==> normReq(reqsOf(valof(ruleSelector))[i]) == normReq(reqsOf(valof(repSelector))[i]))))
+//@   loop 1:
+//@     invariant reqs: ruleRequirements == reqsOf(valof(ruleSelector)) && repRequirements == reqsOf(valof(repSelector)) && len(ruleRequirements) == len(repRequirements)
+//@     invariant agree: forall i int :: {ruleRequirements[i]} (0 <= i && i <= rangeindex) ==> normReq(ruleRequirements[i]) == normReq(repRequirements[i])
